@@ -533,6 +533,7 @@ static int pick_md(void) { switch (rn(8)) { case 0: return 1; case 1: return 2; 
 static void new_parser(int k, int md) { unsigned g = rn(1000000); emit("@%d P %d %u %u", k, md, g, garbage_flags0(md, g)); }
 static void init_doc(int k, int arr, Buf *d) { char *h = hexs(d->b, d->n); emit("@%d I %c %s", k, arr ? 'a' : 'o', h); free(h); }
 static uint8_t dn_buf[4]; static Name dn_name;
+static const Name NM_EMPTY = { "", 0 };
 static const Name *pick_name(void) {
     if (chance(35)) { int l; dense_name(rn(156), dn_buf, &l); dn_name.s = (const char *)dn_buf; dn_name.n = l; return &dn_name; }
     { const Name *n = &NM[rn(NNM)]; if (n->n > 1000 && !chance(10)) n = &NM[rn(NNM)]; return n; }
@@ -563,6 +564,11 @@ static void emit_getters(int k, int with_name) {
     for (int i = 0; i < 7 + (with_name ? 1 : 0); i++) emit("@%d %s", k, GETTERS[i]);
 }
 
+/* lookups are issued only with an object on top (the domain of the properties, C01): judged by the parser's own level
+   flags, not by this generator's bookkeeping, which a non-protocol call can leave behind */
+static int obj_on_top(binson_parser *p) { return p->error_flags == BINSON_ERROR_NONE && p->current_state && (p->current_state->flags & 3); }
+/* the type left behind by a container that a failed lookup skipped: to_writer would enter and leave from here */
+static int stale_container(binson_parser *p) { int t = (int)binson_parser_get_type(p); return t == BINSON_TYPE_OBJECT || t == BINSON_TYPE_ARRAY; }
 /* protocol-following navigation guided only by the parser's own answers.
    finish: keep going until the root has been left (complete traversal). */
 static void nav_ops(int k, int arr, int maxops, int finish, int all_getters, int lookups, int ensure) {
@@ -586,7 +592,7 @@ static void nav_ops(int k, int arr, int maxops, int finish, int all_getters, int
         if (steps > maxops) x = (pending && chance(30)) ? 65 : 95;           /* wrap up */
         int advanced = 0;
         if (x < 50) { emit("@%d n", k); advanced = 1; }
-        else if (x < 60) { if (top == 'o' && lookups) { emit_field(k, (!ensure || chance(80)) ? "f" : "F", pick_name(), (int)rn(10)); advanced = 1; } }
+        else if (x < 60) { if (top == 'o' && lookups && obj_on_top(p)) { emit_field(k, (!ensure || chance(80)) ? "f" : "F", chance(5) ? &NM_EMPTY : pick_name(), (int)rn(10)); advanced = 1; } }
         else if (x < 72) {
             if (pending && sp < 590) {
                 int t = (int)binson_parser_get_type(p);
@@ -597,7 +603,7 @@ static void nav_ops(int k, int arr, int maxops, int finish, int all_getters, int
         }
         else if (x < 78) { if (pending) { emit("@%d gr", k); pending = 0; if (!last_ret) return; } }
         else if (x < 80) { if (pending && W[k].w) { emit("@%d p2w", k); pending = 0; if (!last_ret) return; }
-                           else if (!pending && W[k].w && chance(40)) { emit("@%d p2w", k); emit("@%d wc", k); } }   /* not on a container: refused, nothing changes (writer included) */
+                           else if (!pending && W[k].w && chance(40) && !stale_container(p)) { emit("@%d p2w", k); emit("@%d wc", k); } }   /* not on a container: refused, nothing changes (writer included) */
         else if (x < 84) { const char *g = GETTERS[rn(top == 'o' ? 8 : 7)]; if (!strcmp(g, "gn") && !(p->current_state && p->current_state->current_name.bptr)) g = "gt"; emit("@%d %s", k, g); }
         else if (x < 86) { emit_se(k, "abc", 3); }
         else if (x < 88) { if (pending && ensure) { emit("@%d N %d", k, (int)binson_parser_get_type(p)); } }   /* not protocol: next_ensure skips the pending one */
@@ -641,7 +647,7 @@ static void any_op(int k) {
         binson_parser *p = P[k].p;
         if (p->error_flags == BINSON_ERROR_NONE && p->current_state && p->current_state->current_name.bptr == NULL && !(p->depth > 0 && (p->current_state->flags & 3))) { emit("@%d n", k); return; }
         if (p->error_flags == BINSON_ERROR_NONE && !(p->current_state->flags & 3)) { emit("@%d gt", k); return; }
-        emit_field(k, op, pick_name(), (int)rn(10));
+        emit_field(k, op, chance(8) ? &NM_EMPTY : pick_name(), (int)rn(10));
     }
     else if (!strcmp(op, "se")) emit_se(k, "abc", 3);
     else if (!strcmp(op, "ts")) { if (chance(30)) { if (chance(50)) emit("@%d ts NULL", k); else emit("@%d ts NULL %u", k, 1 + rn(300)); } else emit("@%d ts %u", k, rn(chance(50) ? 8 : 120)); }
